@@ -13,9 +13,21 @@ A program is JSON-able:
      | ['play', quant_spec, how, end] | ['grid', q, p, refspec] | ['ttnb', q]
      | ['conv', beat, sec] | ['bars', beat, bar] | ['nextbar', beat|None]
      | ['barnow']
+     | ['mplay', tid, 'routine' | 'function', sched, deltas, selfmoves]
+     | ['mpause', tid] | ['mmove', tid, sched]        (vf/c12_moved.py)
+     | ['mreset', tid] | ['mstop', tid]   (Routine.reset() / stop())
+  sched = ['play', quant_spec] (Routine.play(clock, quant))
+        | ['clock.play', quant_spec] | ['next_bar'] (clock.play_next_bar)
+        | ['sched_abs', {'rel': x}] (current beat + x) | ['sched', delta]
+        | ['resume', quant_spec, pass_clock]  (Routine.resume(clock | None, quant))
+  A task of 'mplay' wakes len(deltas) + 1 times, handing back the deltas;
+  selfmoves[k] (or None): in wake-up k it first schedules itself at beat + that
+  with sched_abs.  'mmove' puts it on the clock again - while it is pending or
+  later.
   quant_spec = None | number | [q, p] | {'q':, 'p':}  (Quant object)
   how = 'routine.play' | 'clock.play' | 'clock.play-function' (a plain function
-        handed to clock.play)
+        handed to clock.play) | 'clock.play_next_bar' | 'clock.play_next_bar-
+        function' (TempoClock.play_next_bar; the quant_spec is not used)
   end = how the played task ends its (only) wake-up after it has recorded the
         beat it woke on: 'return' | 'gen-end' (generator routine running off its
         end) | 'raise:<ExceptionName>' (user code failing: the clock logs the
@@ -116,6 +128,92 @@ def quant_spec(rng, q, p):
     return {'q': q, 'p': p}
 
 
+def next_bar_hows(rt, bpb, tempo):
+    # real time: only when the next bar line is at most 0.25 s away
+    if rt and bpb > 0.25 * tempo:
+        return []
+    return ['clock.play_next_bar', 'clock.play_next_bar-function']
+
+
+def gen_sched(rng, rt, tempo, bpb, routine, move):
+    """One way of putting a task on the clock (sched of the module text).
+    move: the task has been on the clock before."""
+    c = rng.random()
+    max_q = 0.08 * tempo if rt else None
+    if c < 0.5:
+        q = gen_quant(rng, bpb, max_q)
+        p = gen_phase(rng, q)
+        spec = rng.choice([None, quant_spec(rng, q, p), quant_spec(rng, q, p)])
+        if routine and move and rng.random() < 0.6:
+            return ['resume', spec, rng.random() < 0.6]
+        if routine and rng.random() < 0.5:
+            return ['play', spec]
+        return ['clock.play', spec]
+    if c < 0.7:
+        x = rng.uniform(0.002, 0.05) * tempo if rt else rng.choice(
+            [0, 0.5, 1, 2, 4, 1.5, rng.uniform(0, 16)])
+        return ['sched_abs', {'rel': x}]
+    if c < 0.85 or (rt and bpb > 0.25 * tempo):
+        x = rng.uniform(0.002, 0.05) * tempo if rt else rng.choice(
+            [0, 0.25, 1, 1.0, 3, rng.uniform(0, 8)])
+        return ['sched', x]
+    return ['next_bar']
+
+
+def add_moved_task(rng, steps, at_step, rt, tid, delta):
+    """A task that wakes several times and is scheduled again (same clock)
+    1-3 times: mostly in the step that first scheduled it or the next one (its
+    first wake-up is then usually still pending), with the step's map changes
+    and queries before, between and after the calls."""
+    nsteps = len(steps)
+    k0 = rng.randrange(nsteps) if rng.random() < 0.5 else rng.randrange(
+        (nsteps + 1) // 2)
+    routine = rng.random() < 0.65
+    tempo, bpb = at_step[k0]
+    ndeltas = rng.choice([1, 2, 2, 3, 4])
+    if rt:
+        deltas = [rng.uniform(0.002, 0.02) * tempo for _ in range(ndeltas)]
+    else:
+        deltas = [delta() for _ in range(ndeltas)]
+    selfmoves = [(rng.choice([0, 0.5, 1, 8]) if not rt else
+                  rng.uniform(0, 0.03) * tempo) if rng.random() < 0.15 else None
+                 for _ in range(ndeltas)]
+    ops = steps[k0]['ops']
+    at = rng.randrange(len(ops) + 1)
+    ops.insert(at, ['mplay', tid, 'routine' if routine else 'function',
+                    gen_sched(rng, rt, tempo, bpb, routine, False),
+                    deltas, selfmoves])
+    k, lo = k0, at + 1
+    for _ in range(rng.choice([0, 1, 1, 1, 2, 2, 3])):
+        if rng.random() > 0.6:
+            k2 = min(nsteps - 1, k + rng.randint(1, 2))
+            if k2 != k:
+                k, lo = k2, 0
+        ops = steps[k]['ops']
+        tempo, bpb = at_step[k]
+        sched = gen_sched(rng, rt, tempo, bpb, routine, True)
+        if sched[0] == 'resume' and rng.random() < 0.85:
+            # pause() ... resume(): other ops of the step may come between
+            a = rng.randint(lo, len(ops))
+            ops.insert(a, ['mpause', tid])
+            lo = a + 1
+        elif sched[0] == 'play':
+            # play() only acts on an unplayed or paused routine: the restart
+            # idioms reset(); play() and stop(); reset(); play()
+            c = rng.random()
+            for name in (['mreset'] if c < 0.35 else
+                         ['mstop', 'mreset'] if c < 0.7 else []):
+                a = rng.randint(lo, len(ops))
+                ops.insert(a, [name, tid])
+                lo = a + 1
+        b = rng.randint(lo, len(ops))
+        ops.insert(b, ['mmove', tid, sched])
+        lo = b + 1
+    if routine and rng.random() < 0.06:
+        steps[k]['ops'].insert(rng.randint(lo, len(steps[k]['ops'])),
+                               ['mstop', tid])
+
+
 def gen_program(rng, kind):
     """kind: 'grid' (short set-up, many quantisation queries, big numbers),
     'hist' (long histories of changes), 'rt' (real time: scaled so that one
@@ -170,6 +268,7 @@ def gen_program(rng, kind):
                     for _ in range(nqueries)])
     cur = 0.0       # rough running beat, only to aim reference beats
     si = 0
+    at_step = []    # (tempo, beats_per_bar) at the end of every step
     for k in range(nsteps):
         ops = steps[k]['ops']
         while si < len(slots) and slots[si][0] == k:
@@ -214,7 +313,10 @@ def gen_program(rng, kind):
                     ops.append(['play', rng.choice(
                         [None, quant_spec(rng, q, p), quant_spec(rng, q, p)]),
                         rng.choice(['routine.play', 'clock.play',
-                                    'clock.play-function']), gen_end(rng)])
+                                    'clock.play-function', 'routine.play',
+                                    'clock.play', 'clock.play-function']
+                                   + next_bar_hows(rt, bpb, tempo)),
+                        gen_end(rng)])
             else:
                 c = rng.random()
                 if c < (0.8 if kind == 'grid' else 0.4):
@@ -243,6 +345,12 @@ def gen_program(rng, kind):
             d = delta()
             steps[k]['delta'] = d
             cur += d
+        at_step.append((tempo, bpb))
+    p_moved = {'grid': 0.25, 'hist': 0.6, 'rt': 0.6}[kind]
+    tid = 0
+    while tid < 3 and rng.random() < p_moved:
+        add_moved_task(rng, steps, at_step, rt, tid, delta)
+        tid += 1
     prog = {'clock': clock, 'root_quant': root_quant, 'steps': steps}
     if not rt:
         # logical second at which the clock is created and the root routine
@@ -259,6 +367,8 @@ def features(prog):
         'tempo': 'tempo' in names, 'etempo': 'etempo' in names,
         'beats': 'beats' in names, 'bpb': 'bpb' in names,
         'play': 'play' in names,
+        'moved_tasks': sum(n == 'mplay' for n in names),
+        'moves': sum(n == 'mmove' for n in names),
         'failing_task': any(op[0] == 'play' and len(op) > 3
                             and op[3].startswith('raise') for op in ops),
         'grid': sum(n == 'grid' for n in names),
